@@ -495,6 +495,31 @@ def run(ctx):
                 {'has_meta': True, 'content_type': 0, 'freshness': None, 'final_block': fb}, b'', 'none', target=('final-block', T_))
         ctx.event('nested-length-sweep')
 
+    # ---- payloads that are themselves TLV: the payload is opaque octets, whatever it looks like - one element of the wrapper's own
+    # type (Content 0x15 / ApplicationParameters 0x24), of a neighbouring field's type, a whole packet, several elements, a
+    # near-miss (length one too long / short)
+    def structured_payloads():
+        inner = gen.rand_bytes(rng, rng.choice([0, 1, 3, 40, 252, 253, 300]))
+        out = [rc.enc_tlv(t, inner) for t in (0x15, 0x24, 0x16, 0x17, 0x2c, 0x2e, 0x14, 0x07, 0x06, 0x05, 0x08, 0x02, 0xfd00)]
+        out.append(rc.enc_tlv(0x15, b''))
+        out.append(rc.enc_tlv(0x24, b''))
+        out.append(rc.enc_tlv(0x15, rc.enc_tlv(0x15, inner)))
+        out.append(rc.enc_tlv(0x15, inner) + rc.enc_tlv(0x15, b'z'))
+        out.append(rc.enc_tlv(0x24, inner) + b'\x00')
+        out.append(b'\x15' + bytes([len(inner) % 250 + 1]) + inner[:len(inner) % 250])
+        out.append(b'\x24\x00\x24\x00')
+        out.append(bytes(make_data(gen.simple_name(rng, 1, 2), MetaInfo(), inner[:50], None)))
+        out.append(bytes(make_interest(gen.simple_name(rng, 1, 2), InterestParam(nonce=1), inner[:50] or b'p')))
+        return out
+    for rep in range(ctx.n(1, 12)):
+        for pl in structured_payloads():
+            kind = rng.choice(['none', 'digest', 'ecdsa256', 'hmac', 'var', 'none'])
+            meta, mexp = pkts.gen_meta_info(rng)
+            do_data(ctx, rng, gen.simple_name(rng, 1, 3), meta, mexp, pl, kind, target=('tlv-shaped-payload', pl[0]))
+            prm, pexp = pkts.gen_interest_param(rng)
+            do_interest(ctx, rng, gen.simple_name(rng, 1, 3), prm, pexp, pl, kind if kind != 'digest' else 'digest-int', target=('tlv-shaped-payload', pl[0]))
+            ctx.event('payload-shaped-like-tlv')
+
     # ---- random product
     reuse = {}
     for i in range(n):
